@@ -376,6 +376,7 @@ asts! {
     };
     List {
         value_list: ValueList,
+        r#type: Type,
     };
     ValueList {
         values: [Value],
